@@ -209,6 +209,7 @@ class APPLY:
     cases = {"with-converter": dict(self=TRANSFORMER, data=OBJ, t=TCLS, func=OBJ),
              "no-converter": dict(self=TRANSFORMER, data=OBJ, t=TCLS, func=NONE)}
     calls = "leaf"
+    ghost_effect = {"work": 1}          # definitional: one conversion attempt per call (cost counter of C18)
     setup = staticmethod(_not_forward_ref)
     returns = dict(_APPLY_RET, exact_type_is_identity="implies(typeof(data) is t, result is data)")
     raises = _APPLY_RAISES
@@ -222,6 +223,7 @@ class APPLY:
 class CALL:
     cases = {"any": dict(self=TRANSFORMER, data=OBJ, t=TCLS)}
     calls = "leaf"
+    ghost_effect = {"work": 1}
     leaf_methods = ["handle_unresolved"]
     setup = staticmethod(_not_forward_ref)
     returns = dict(_APPLY_RET, exact_type_is_identity="implies(typeof(data) is t, result is data)")
